@@ -474,7 +474,7 @@ func replayObligation(eng *Engine, o *Obligation, model, repo, outDir string) (r
 		return res
 	}
 	pkg := fn.Pkg.Pkg
-	rp := &replayer{eng: eng, o: o, c: c, outDir: outDir, repo: repo, timeout: 20}
+	rp := &replayer{eng: eng, o: o, c: c, outDir: outDir, repo: repo, timeout: 10}
 	ct := c.contract
 	sig := fn.Signature
 	// prefer small inputs: bound stream / slice / string sizes, relaxing the bound if needed
@@ -680,7 +680,7 @@ func replayObligation(eng *Engine, o *Obligation, model, repo, outDir string) (r
 		q.Extra = append(append([]*Term(nil), rp.pins...), facts...)
 		file := filepath.Join(outDir, fmt.Sprintf("replay_decide_%d.smt2", run))
 		os.WriteFile(file, []byte(q.script(eng, false)), 0o644)
-		status, _, _ := runSolver(solvers[0], file, 20)
+		status, _, _ := runSolver(solvers[0], file, 6)
 		if status == "unsat" {
 			res.Reproduced = true
 			res.Observed = fmt.Sprintf("run %d (%v): %s — the clause cannot hold for these inputs and observed outputs", run, obs["mode"], desc)
